@@ -285,6 +285,9 @@ func init() {
 			return &IfaceV{typ: in.P.LookupType("errors", "errorString"), val: &Ptr{cell: in.newCell(&StructV{fields: []Value{s}}, "error")}}
 		},
 
+		// reflect.TypeOf is only used to fill analysis.Analyzer.ResultType: opaque
+		"reflect.TypeOf": func(in *Interp, fn *ssa.Function, a []Value) Value { return &IfaceV{} },
+
 		// ----- sync -----
 		"(*sync.Once).Do": func(in *Interp, fn *ssa.Function, a []Value) Value {
 			p := a[0].(*Ptr)
@@ -300,15 +303,18 @@ func init() {
 			in.invoke(nil, &callTarget{closure: cl, fn: cl.fn}, nil, nil, nil)
 			return nil
 		},
-		"(*sync.Mutex).Lock":    func(in *Interp, fn *ssa.Function, a []Value) Value { return nil },
-		"(*sync.Mutex).Unlock":  func(in *Interp, fn *ssa.Function, a []Value) Value { return nil },
-		"(*sync.RWMutex).Lock":  func(in *Interp, fn *ssa.Function, a []Value) Value { return nil },
-		"(*sync.RWMutex).Unlock": func(in *Interp, fn *ssa.Function, a []Value) Value { return nil },
+		"(*sync.Mutex).Lock":    func(in *Interp, fn *ssa.Function, a []Value) Value { in.inOnce++; return nil },
+		"(*sync.Mutex).Unlock":  func(in *Interp, fn *ssa.Function, a []Value) Value { in.inOnce--; return nil },
+		"(*sync.RWMutex).Lock":  func(in *Interp, fn *ssa.Function, a []Value) Value { in.inOnce++; return nil },
+		"(*sync.RWMutex).Unlock": func(in *Interp, fn *ssa.Function, a []Value) Value { in.inOnce--; return nil },
 		"(*sync.RWMutex).RLock": func(in *Interp, fn *ssa.Function, a []Value) Value { return nil },
 		"(*sync.RWMutex).RUnlock": func(in *Interp, fn *ssa.Function, a []Value) Value { return nil },
 
 		// ----- os (environment = nondeterministic stub) -----
 		"os.Getenv": func(in *Interp, fn *ssa.Function, a []Value) Value {
+			if in.inInit {
+				return concStr("") // package initialisers see an empty environment
+			}
 			set, val := in.envLookup(a[0].(*Str))
 			if in.branch(set, "env set") {
 				return val
@@ -316,6 +322,9 @@ func init() {
 			return concStr("")
 		},
 		"os.LookupEnv": func(in *Interp, fn *ssa.Function, a []Value) Value {
+			if in.inInit {
+				return TupleV{concStr(""), in.St.False}
+			}
 			set, val := in.envLookup(a[0].(*Str))
 			if in.branch(set, "env set") {
 				return TupleV{val, in.St.True}
